@@ -428,6 +428,10 @@ def find_files(options):
     when = options.date
     if not when:
         when = gen_filename(options, ext='')
+    else:
+        # yyyy-mm-dd[-hh[-mm[-ss]]]: a truncated date means the start of that
+        # day / hour / minute; the file names carry all six fields
+        when += '-00' * (5 - when.count('-'))
     log('looking for files between last full backup and %s...', when)
     # newest file first
     all = sorted(
